@@ -351,7 +351,11 @@ class Fzn:
             # set-typed declaration (possibly with holes, possibly a singleton)
             keep = [v for v in vals if r.random() < 0.7] or [vals[0]]
             vals = keep
-            decl = f"var {{{','.join(map(str, vals))}}}: {name}"
+            # FlatZinc does not prescribe an order for the elements of a set literal
+            lit = list(vals)
+            if r.random() < 0.5:
+                r.shuffle(lit)
+            decl = f"var {{{','.join(map(str, lit))}}}: {name}"
         elif r.random() < 0.12 and self.ints():
             return self.new_alias()
         elif r.random() < 0.08:
@@ -460,7 +464,7 @@ class Fzn:
             "int_le", "int_lt", "int_eq", "int_ne", "int_le_reif", "int_lt_reif", "int_eq_reif", "int_ne_reif",
             "int_plus", "int_times", "int_div", "int_abs", "int_max", "int_min", "array_int_maximum", "array_int_minimum",
             "array_int_element", "array_var_int_element", "pumpkin_all_different", "pumpkin_cumulative",
-            "set_in", "set_in_reif", "bool_and", "array_bool_and", "array_bool_or", "bool_clause", "bool_not", "bool_eq",
+            "set_in", "set_in", "set_in_sparse", "set_in_sparse", "set_in_sparse", "set_in_reif", "bool_and", "array_bool_and", "array_bool_or", "bool_clause", "bool_not", "bool_eq",
             "bool_eq_reif", "pumpkin_bool_xor", "pumpkin_bool_xor_reif", "bool2int", "bool_lin_eq", "bool_lin_le",
             "array_var_bool_element",
         ])
@@ -561,16 +565,39 @@ class Fzn:
             cap = r.randint(1, 4)
             self.add(f"pumpkin_cumulative([{','.join(self.name(x) for x in xs)}], [{','.join(map(str, ds))}], [{','.join(map(str, us))}], {cap})",
                      f"cumul {n} " + " ".join(f"{self.view(1, 0, x)} {d} {u}" for x, d, u in zip(xs, ds, us)) + f" {cap}")
+        elif kind == "set_in_sparse":
+            # a variable declared with a set type meets a top-level set_in over a sparse set, both
+            # written in arbitrary element order (FlatZinc prescribes none), with a common value
+            lo = r.randint(-4, 2)
+            pool = list(range(lo, lo + 8))
+            vals = sorted(r.sample(pool, r.randint(3, 6)))
+            lit = list(vals)
+            r.shuffle(lit)
+            name = f"x{len(self.vars)}"
+            self.vars.append((name, "int", vals, f"var {{{','.join(map(str, lit))}}}: {name}", ""))
+            x = len(self.vars) - 1
+            svals = sorted(set(r.sample(pool, r.randint(3, 6))) | {r.choice(vals)})
+            slit = list(svals)
+            r.shuffle(slit)
+            spec = f"clause {len(svals)} " + " ".join(f"eq {x} {v}" for v in svals)
+            self.add(f"set_in({name}, {{{','.join(map(str, slit))}}})", spec)
         elif kind in ("set_in", "set_in_reif"):
             x = self.pick_int()
+            # prefer a variable which was declared with a set type (sparse domain meets sparse set)
+            sparse = [i for i, v in enumerate(self.vars) if v[1] == "int" and v[3].startswith("var {") and len(v[2]) >= 3]
+            if sparse and r.random() < 0.6:
+                x = r.choice(sparse)
             if r.random() < 0.5:
                 lo = r.randint(-3, 3)
                 hi = lo + r.randint(0, 3)
                 stxt = f"{lo}..{hi}"
                 vals = list(range(lo, hi + 1))
             else:
-                vals = sorted(set(r.randint(-3, 6) for _ in range(r.randint(1, 4))))
-                stxt = "{" + ",".join(map(str, vals)) + "}"
+                vals = sorted(set(r.randint(-3, 6) for _ in range(r.randint(1, 6))))
+                lit = list(vals)
+                if r.random() < 0.6:
+                    r.shuffle(lit)  # unsorted set literal
+                stxt = "{" + ",".join(map(str, lit)) + "}"
             spec = f"clause {len(vals)} " + " ".join(f"eq {x} {v}" for v in vals)
             if kind == "set_in":
                 self.add(f"set_in({self.name(x)}, {stxt})", spec)
